@@ -257,6 +257,9 @@ func (x *planExec) finish(op *Op, res *OpResult) {
 	if res.Rec != nil && res.Rec.injectedAt != "" {
 		x.out.Stats.Faults["injected-fault-fired"]++
 	}
+	if res.Rec != nil && len(res.Rec.Gens) > 0 {
+		x.seedProvenance(op, res)
+	}
 	if res.Extra != nil || res.Missing > 0 {
 		x.violate("C20", "delivered-request-unanswered", op.ID, "C20|transport|"+method, "over one connection: %s", res.TransportNote)
 	}
@@ -516,7 +519,11 @@ func (x *planExec) checkEcho(op *Op, res *OpResult, method string) {
 	}
 	got := v["request"]
 	if !jsonEqual(want, got) {
-		x.violate("C09", "echo-differs", op.ID, "C09|echo-differs|"+method, "the request echoed in the 400 differs from the request as received: %s", firstDiff(string(want), string(got)))
+		prop := "C09"
+		if x.plan.Property == "C20" {
+			prop = "C20" // "otherwise 400 with an error message and the echoed request"
+		}
+		x.violate(prop, "echo-differs", op.ID, prop+"|echo-differs|"+method, "the request echoed in the 400 differs from the request as received: %s", firstDiff(string(want), string(got)))
 	}
 }
 
@@ -535,4 +542,45 @@ func sortedStrKeys(m map[string]string) []string {
 	}
 	sort.Strings(ks)
 	return ks
+}
+
+// seedProvenance is a probe on the PRNG seam (never a verdict: another
+// request-determined seeding scheme would be legitimate): how many generators
+// were created with a seed that does not occur in the request (allowing the
+// small position offsets the new-criterion anchoring applier documents).
+func (x *planExec) seedProvenance(op *Op, res *OpResult) {
+	var root interface{}
+	if json.Unmarshal(op.BodyBytes(), &root) != nil {
+		return
+	}
+	nums := map[int64]bool{0: true}
+	var walk func(v interface{})
+	walk = func(v interface{}) {
+		switch t := v.(type) {
+		case map[string]interface{}:
+			for _, e := range t {
+				walk(e)
+			}
+		case []interface{}:
+			for _, e := range t {
+				walk(e)
+			}
+		case float64:
+			nums[int64(t)] = true
+		}
+	}
+	walk(root)
+	for _, g := range res.Rec.Gens {
+		x.out.Stats.Probes["prng-generators-created"]++
+		x.out.Stats.Probes["prng-draws"] += int64(g.Draws)
+		ok := false
+		for k := int64(0); k <= 4; k++ {
+			if nums[g.Seed-k] {
+				ok = true
+			}
+		}
+		if !ok {
+			x.out.Stats.Probes["prng-generator-seed-not-in-request"]++
+		}
+	}
 }
